@@ -132,6 +132,32 @@ func KnownEnd() {}
 // MayDiffer is a discovery aid for building the C01 don't-care table (no-op natively).
 func MayDiffer(label string, x byte) {}
 
+// TempPath, PutFile, GetFile: files of the tools under test. Symbolically they live in an in-memory
+// table; natively in a scratch directory that is removed at process exit.
+var tempDir string
+
+func TempPath(name string) string {
+	if tempDir == "" {
+		d, err := os.MkdirTemp("", "vfyfiles-")
+		if err != nil {
+			panic(err)
+		}
+		tempDir = d
+	}
+	return filepath.Join(tempDir, name)
+}
+
+func PutFile(path string, data []byte) {
+	if err := os.WriteFile(path, data, 0o644); err != nil {
+		panic(err)
+	}
+}
+
+func GetFile(path string) ([]byte, bool) {
+	data, err := os.ReadFile(path)
+	return data, err == nil
+}
+
 // Split case-splits on the value of x (symbolically); identity natively.
 func Split(x int) int { return x }
 
@@ -412,6 +438,10 @@ func ReplayAll(t *testing.T, pkg string, reg map[string]func(args []string)) {
 			continue
 		}
 		res := runOne(f, &w, fn)
+		if tempDir != "" {
+			os.RemoveAll(tempDir)
+			tempDir = ""
+		}
 		out, _ := json.Marshal(res)
 		if err := os.WriteFile(strings.TrimSuffix(f, ".json")+".result.json", out, 0o644); err != nil {
 			t.Fatal(err)
